@@ -80,7 +80,8 @@ def run_check(prop, tier, seed):
             return 2
     budget = float(os.environ.get("VERIF_BUDGET_S", BUDGET[tier]))
     shards = mod.plan(tier, seed)
-    total = run_sharded(mod.__name__, shards, budget)
+    known_sigs = {k["signature"] for k in known.load() if k["property"] == prop and k.get("status") == "open"}
+    total = run_sharded(mod.__name__, shards, budget, known_signatures=known_sigs)
     if hasattr(mod, "finalize"):
         mod.finalize(total, tier, seed)
 
@@ -93,10 +94,11 @@ def run_check(prop, tier, seed):
     for sig, vs in sorted(by_sig.items()):
         k = known.match_open(prop, sig)
         if k:
-            known_seen.append({"key": k["key"], "signature": sig, "count": len(vs), "what": k["what"]})
-            print(f"KNOWN-FINDING: property={prop} {k['key']}: {k['what']} (re-observed {len(vs)}x this run)")
+            n = len(vs) + total.get("known_counts", {}).get(sig, 0)
+            known_seen.append({"key": k["key"], "signature": sig, "count": n, "what": k["what"]})
+            print(f"KNOWN-FINDING: property={prop} {k['key']}: {k['what']} (re-observed {n}x this run)")
             continue
-        v = vs[0]
+        v = min(vs, key=lambda x: len(json.dumps(jsonable(x.get("case")))))
         try:
             v["case"] = minimise(mod, v["case"], sig)
             if hasattr(mod, "replay"):
